@@ -20,6 +20,23 @@ def net_scenario(rng, tier, duplex_bias=False, tx_only_passes=True, big=False):
         pb['max_frame_size'] = mfs
     ops = [{'op': 'layer', 'i': 0, 'addr': a, 'params': pa}, {'op': 'layer', 'i': 1, 'addr': b, 'params': pb}]
     rid = 0
+    if rng.random() < 0.15 and min(pa.get('max_frame_size', 4095), pb.get('max_frame_size', 4095)) >= 20:
+        # the pair first talks on ANOTHER mirrored address pair (one multi-frame payload each way), then both sides are moved to the
+        # addresses of this scenario with set_address(): nothing derived from the old addresses may survive
+        a0, b0 = gen.rand_addr_pair(rng)
+        ops = [{'op': 'layer', 'i': 0, 'addr': a0, 'params': pa}, {'op': 'layer', 'i': 1, 'addr': b0, 'params': pb}]
+        dt0 = max(ref.stmin_ns(pa.get('stmin', 0)) or 0, ref.stmin_ns(pb.get('stmin', 0)) or 0, 1000000) + 1
+        for side in (0, 1):
+            rid += 1
+            ops.append({'op': 'send', 'i': side, 'id': rid, 'data': gen.rand_payload(rng, 20), 'keep': True})
+        for _ in range(60):
+            ops.append({'op': 'deliver', 'i': 0, 'j': 1, 'n': 100000, 'keep': True})
+            ops.append({'op': 'process', 'i': 1, 'keep': True})
+            ops.append({'op': 'deliver', 'i': 1, 'j': 0, 'n': 100000, 'keep': True})
+            ops.append({'op': 'process', 'i': 0, 'keep': True})
+            ops.append({'op': 'tick', 'dt': dt0, 'keep': True})
+        ops.append({'op': 'set_address', 'i': 0, 'addr': a, 'keep': True})
+        ops.append({'op': 'set_address', 'i': 1, 'addr': b, 'keep': True})
     sends = []
     total_frames = 0
     if duplex_bias:
